@@ -468,6 +468,10 @@ impl<'a> Outbound<'a> {
             self.buf.len()
         );
         self.mark_retained_dup();
+        // A PINGREQ belongs to the keep-alive of the connection it was queued on; the next
+        // connection negotiates its own (possibly zero) keep-alive.
+        self.pending_control
+            .retain(|entry| !matches!(entry.action, ControlAction::PingReq));
         for entry in &mut self.pending_control {
             entry.state = SendState::Write { written: 0 };
         }
